@@ -1,1 +1,14 @@
-fn main() { println!("stub"); }
+//! Protocol drivers (B1 schedule replay, B2 trace recording) — DESIGN.md §7.2.
+mod c16;
+
+fn main() {
+    let a: Vec<String> = std::env::args().collect();
+    let cmd = a.get(1).map(|s| s.as_str()).unwrap_or("");
+    match cmd {
+        "c16" => c16::main(),
+        _ => {
+            eprintln!("usage: vproto <c16|...> [options]");
+            std::process::exit(2);
+        }
+    }
+}
